@@ -570,6 +570,29 @@ def bounded(rep, tier):
                     if not (lrtab.lr_first_error(d, ins)[0] > v or lrtab.lr_first_error(d, sub)[0] > v):
                         kind = 'single-unvalidated' if 'Expected symbol' in msg else ('eof-list-unvalidated' if v >= len(kinds) else 'validated')
                         fails.setdefault(f'C19.bounded.suggestion.{kind}', (text, f'suggested "{sg}" neither inserted before nor substituted for the offending token lets parsing proceed; message: {msg[-160:]}'))
+    # lexical errors: an illegal character after every kind of multi-line prefix; the message must show the line that holds it with the caret under it
+    prefixes = {
+        'plain': 'select a,\n  b', 'blank-lines': 'select a\n\n\n ,b', 'line-comment': 'select a -- c\n, b',
+        'multiline-string': "select 'first\nsecond' as s,\n  b", 'block-comment': 'select /* x\n y */ a,\n b', 'is-not-split': 'select a from t where a is\n   not null and\n b',
+        'not-in-split': 'select a from t where a not\n in (1) and\n b', 'one-line': 'select a, b',
+    }
+    for pname, pre in prefixes.items():
+        for tail in (' # c', '\n # c', ' = 1 and\n c # d'):
+            text = pre + tail
+            n += 1
+            msg = message_of(text) or ''
+            if not msg.startswith('Illegal'):
+                continue
+            lines_ = msg.split('\n')
+            shown = [l[1:] for l in lines_ if l.startswith('>')]
+            car = [l for l in lines_ if l and set(l) <= {'-', '^'} and '^' in l]
+            real_line = text[:text.index('#')].count('\n')
+            want_line = text.split('\n')[real_line]
+            col = len(text[:text.index('#')].split('\n')[-1])
+            ok = bool(shown) and shown[-1] == want_line and bool(car) and len(car[0]) - 1 == col + 1      # the shown line carries a '>' prefix
+            if not ok:
+                cls_ = 'first-line-of-many' if (real_line == 0 and '\n' in text) else pname
+                fails.setdefault(f'C19.bounded.lexerr.{cls_}', (text, f'message shows {shown} with the caret under column {len(car[0]) - 2 if car else None} of the shown text; the character is at column {col} of line {real_line + 1} `{want_line}`'))
     rep.bounded_evals = n
     rep.bounded_rule = ('production sentences with one random token deleted / duplicated / replaced / inserted or truncated, in one-line, two-line, comment and indented layouts: carets must mark '
                         'the first token after the longest viable prefix (independent table-driven LR simulation), each concrete suggestion must extend the viable prefix when inserted or substituted')
